@@ -339,7 +339,14 @@ var DeepFamilies = []DeepFamily{
 	{"bracket-pairs", func(n int) []byte { return []byte(rep("[a]", n)) }},
 	{"nested-brackets", func(n int) []byte { return []byte(rep("[", n) + "a" + rep("]", n)) }},
 	{"emph-open", func(n int) []byte { return []byte(rep("*a ", n)) }},
-	{"emph-mixed", func(n int) []byte { return []byte(rep("*a_", n)) }},
+	{"emph-mixed", func(n int) []byte {
+		// goldmark's delimiter matching is quadratic on this family (6 CPU-s at n=2*10^4, 24 s at 4*10^4, ~100 s at 8*10^4): the size is
+		// capped so that the worst legitimate case stays a factor 4 below the CPU bound of C01 (see DESIGN.md section 6, observations)
+		if n > 40000 {
+			n = 40000
+		}
+		return []byte(rep("*a_", n))
+	}},
 	{"emph-nested", func(n int) []byte { return []byte(rep("*", n) + "a" + rep("*", n)) }},
 	{"backticks", func(n int) []byte { return []byte(rep("`a", n)) }},
 	{"backtick-runs", func(n int) []byte {
@@ -351,8 +358,8 @@ var DeepFamilies = []DeepFamily{
 	}},
 	{"list-nest", func(n int) []byte {
 		var b strings.Builder
-		if n > 3000 {
-			n = 3000
+		if n > 1500 {
+			n = 1500 // the input itself grows quadratically (2.2 MB at 1500 levels)
 		}
 		for i := 0; i < n; i++ {
 			b.WriteString(rep(" ", 2*i) + "- a\n")
